@@ -9,6 +9,7 @@ import (
 )
 
 type loopCtx struct {
+	head    map[string]Val // names at the loop head of the current symbolic iteration
 	variant *Term
 	vars    map[string]Val // names captured at loop entry (pre-havoc values as <name>@pre)
 }
@@ -41,7 +42,7 @@ func headerPhis(h *ssa.BasicBlock) []*ssa.Phi {
 
 // loopVars builds the name environment at a loop head.
 func (fx *Fx) loopVars(st *State, li *LoopInfo) map[string]Val {
-	vars := fx.frameVars(st)
+	vars := fx.frameVarsAt(st, li.Header)
 	for _, p := range headerPhis(li.Header) {
 		if p.Comment != "" {
 			v := st.Top().Vals[p]
@@ -54,6 +55,10 @@ func (fx *Fx) loopVars(st *State, li *LoopInfo) map[string]Val {
 
 // frameVars: parameters (entry values) and address-taken locals by name.
 func (fx *Fx) frameVars(st *State) map[string]Val {
+	return fx.frameVarsAt(st, nil)
+}
+
+func (fx *Fx) frameVarsAt(st *State, at *ssa.BasicBlock) map[string]Val {
 	vars := map[string]Val{}
 	f := st.Top()
 	for _, p := range f.Fn.Params {
@@ -77,7 +82,7 @@ func (fx *Fx) frameVars(st *State) map[string]Val {
 			}
 		}
 	}
-	for name, val := range fx.namedValues(st) {
+	for name, val := range fx.namedValues(st, at) {
 		if _, clash := vars[name]; !clash {
 			vars[name] = val
 		}
@@ -85,52 +90,69 @@ func (fx *Fx) frameVars(st *State) map[string]Val {
 	return vars
 }
 
-// namedValues resolves source-level names of non-phi, non-param values via DebugRefs.
-func (fx *Fx) namedValues(st *State) map[string]Val {
+// namedValues resolves source-level names of values via DebugRefs and phi comments: for each name the
+// definition in the deepest block dominating `at` (latest in that block) wins.
+func (fx *Fx) namedValues(st *State, at *ssa.BasicBlock) map[string]Val {
 	out := map[string]Val{}
 	f := st.Top()
-	amb := map[string]bool{}
-	for _, b := range f.Fn.Blocks {
-		for _, ins := range b.Instrs {
-			d, ok := ins.(*ssa.DebugRef)
-			if !ok || d.IsAddr {
-				continue
+	type cand struct {
+		b   *ssa.BasicBlock
+		idx int
+		v   Val
+	}
+	best := map[string]cand{}
+	consider := func(name string, b *ssa.BasicBlock, idx int, v Val) {
+		if at != nil && !(b == at || b.Dominates(at)) {
+			return
+		}
+		if at != nil && b == at {
+			// only phis of the block itself are visible at its head
+			if idx >= 0 && !fx.nvInclusive {
+				return
 			}
-			obj := d.Object()
-			if obj == nil {
-				continue
-			}
-			if _, isVar := obj.(*types.Var); !isVar {
-				continue
-			}
-			v, has := f.Vals[d.X]
-			if !has {
-				if c, isC := d.X.(*ssa.Const); isC {
-					v = fx.constVal(c)
-				} else {
-					continue
-				}
-			}
-			v.T = d.X.Type()
-			name := obj.Name()
-			if prev, ok := out[name]; ok {
-				same := len(prev.L) == len(v.L)
-				if same {
-					for i := range v.L {
-						if prev.L[i] != v.L[i] {
-							same = false
-						}
-					}
-				}
-				if !same {
-					amb[name] = true
-				}
-			}
-			out[name] = v
+		}
+		c, ok := best[name]
+		if !ok || (c.b != b && c.b.Dominates(b)) || (c.b == b && idx > c.idx) {
+			best[name] = cand{b, idx, v}
 		}
 	}
-	for n := range amb {
-		delete(out, n)
+	for _, b := range f.Fn.Blocks {
+		for idx, ins := range b.Instrs {
+			switch d := ins.(type) {
+			case *ssa.Phi:
+				if d.Comment == "" {
+					continue
+				}
+				if v, has := f.Vals[d]; has {
+					v.T = d.Type()
+					consider(d.Comment, b, -1, v)
+				}
+			case *ssa.DebugRef:
+				if d.IsAddr {
+					continue
+				}
+				obj := d.Object()
+				if obj == nil {
+					continue
+				}
+				if _, isVar := obj.(*types.Var); !isVar {
+					continue
+				}
+				v, has := f.Vals[d.X]
+				if !has {
+					if c, isC := d.X.(*ssa.Const); isC {
+						v = fx.constVal(c)
+					} else {
+						continue
+					}
+				}
+				v.T = d.X.Type()
+				consider(obj.Name(), b, idx, v)
+			}
+		}
+	}
+	for n, c := range best {
+		out[n] = c.v
 	}
 	return out
 }
@@ -228,9 +250,16 @@ func (fx *Fx) loopEntryAfterPhis(st *State, li *LoopInfo) *State {
 	}
 	env2 := &Env{fx: fx, st: st, old: fx.Entry, vars: vars}
 	for _, inv := range ann.Inv {
+		n0 := len(fx.Assume)
 		fx.assume(st, fx.P.elab(fx, inv.X, env2).Scalar())
+		if len(fx.Assume) > n0 {
+			fx.KeyFacts[fx.Assume[len(fx.Assume)-1]] = true
+		}
 	}
-	ctx := &loopCtx{vars: pre}
+	for _, a := range ann.Apply {
+		fx.assume(st, fx.P.elab(fx, a, env2).Scalar())
+	}
+	ctx := &loopCtx{vars: pre, head: vars}
 	if ann.Decreases != nil {
 		ctx.variant = fx.P.elab(fx, ann.Decreases, env2).Scalar()
 	}
@@ -477,6 +506,30 @@ func (fx *Fx) runFromHeader(st *State, li *LoopInfo) {
 }
 
 func (fx *Fx) loopBackEdge(st *State, li *LoopInfo, pred *ssa.BasicBlock) {
+	if fx.dry != li {
+		// proof steps: evaluated in the end-of-iteration state with loop-carried names at their head values
+		ann0 := fx.loopAnn(li.Header.Parent(), li)
+		if c0 := fx.loopCtxs[li]; c0 != nil && len(ann0.Asserts) > 0 {
+			hv := map[string]Val{}
+			fx.nvInclusive = true
+			for k, v := range fx.frameVarsAt(st, pred) {
+				hv[k] = v
+			}
+			fx.nvInclusive = false
+			for k, v := range c0.head {
+				hv[k] = v
+			}
+			envA := &Env{fx: fx, st: st, old: fx.Entry, vars: hv}
+			for _, a := range ann0.Asserts {
+				g := fx.P.elab(fx, a.X, envA).Scalar()
+				fx.oblige(st, "inv-step", fmt.Sprintf("loop%d:assert:%s", li.Ordinal, a.Label), g, li.Header.Instrs[0].Pos())
+				fx.assume(st, g)
+				fx.KeyFacts[fx.Assume[len(fx.Assume)-1]] = true
+			}
+			fx.stepsActive = true
+			defer func() { fx.stepsActive = false }()
+		}
+	}
 	fx.execPhis(st, li.Header, pred)
 	if fx.dry == li {
 		fx.dryArrivals = append(fx.dryArrivals, st)
